@@ -8,6 +8,7 @@ Oracle (vlib.model.chain): from method m with arguments a, if m is applicable to
 entry after m in the successive resolutions of a (winner removed each time); 'No method' below the last,
 the ambiguity error at a tied rank; if m is not applicable to a, a fresh resolution.  Every delegation step
 of every nested call is checked, and no method may be entered twice in a same-arguments chain.
+A tenth of the cases are histories over an ovld that follows another one (checks/c07_linked.py).
 """
 import sys
 
@@ -19,9 +20,13 @@ from vlib import runner as R
 from vlib import spec as S
 from vlib.prog import Program
 
+from checks import c07_linked as L
+
 
 def case_strategy():
     from hypothesis import strategies as st
+
+    linked = L.strategy(st)
 
     @st.composite
     def _valuedep_case(draw):
@@ -44,8 +49,11 @@ def case_strategy():
 
     @st.composite
     def _case(draw):
-        if draw(st.integers(0, 9)) == 0:
+        k = draw(st.integers(0, 9))
+        if k == 0:
             return draw(_valuedep_case())
+        if k == 1:
+            return draw(linked)
         h = draw(H.hierarchies(2, 7))
         knames = H.class_names(h)
         env = H.build(h)
@@ -176,6 +184,8 @@ def expected_next(methods, m, fn, args, kws, env):
 
 
 def run_case(spec):
+    if spec.get("family") == "linked":
+        return L.run_case(spec)
     res = R.CaseResult()
     env = H.build(spec["hier"])
     try:
@@ -258,11 +268,18 @@ class Check:
         "keyword-only, priorities, replaced identical signatures, three host kinds), every method delegating through a "
         "call_next / f.next / recurse site (in the documented regime 1 in 4 hands the last positional on by keyword); "
         "scripts of 1-8 delegations (same or other arguments; the corpus has an instance equal to every object). Every delegation "
-        "step is compared with the reference chain. Non-trivial = a chain of >=3 bodies or one ending in the "
-        "ambiguity error, over a hierarchy with multiple inheritance or with >=2 arguments; distinct by case hash."
+        "step is compared with the reference chain. 1 case in 10 is a history over an ovld that follows another one "
+        "(copy / mixins / variant with linkback=True, linear class chain, methods owned by either, child.next from the body, "
+        "a generator expression, a lambda, a helper or a lambda in a comprehension; 3-14 steps of register / unregister on "
+        "either, child.compile(), calls): each call must enter the present applicable methods most specific first, once each, "
+        "then 'No method'. Non-trivial = a chain of >=3 bodies or one ending in the "
+        "ambiguity error, over a hierarchy with multiple inheritance or with >=2 arguments, or a linked chain of >=2 bodies "
+        "with a nested-frame f.next walked after the followed ovld changed; distinct by case hash."
     )
     assumptions = [
-        "f.next is exercised on the function it was written for (functions, methods with self), not through variants",
+        "f.next is exercised on the function it was written for (functions, methods with self) and, in the linked family, on "
+        "the following ovld by that ovld's own methods; a followed ovld's method calling the FOLLOWED ovld's .next while running "
+        "in the follower is not asserted (not stated)",
         "the continuation from a method that the reference chain reaches only through a tied rank is not asserted",
     ]
 
